@@ -29,7 +29,9 @@ Inductive lprim :=
                                   argument only changes which lengths the writer refuses (not modelled: refused values never reach a decoder) *)
 | PBytes17V                    (* vanilla 1.7 array: two-byte short (Forge: third byte when bit 15 set) *)
 | PUUIDStr (dashed : bool)     (* ServerLoginSuccess < 1.16: WriteString(uuid.String() / Undashed()), uuid.Parse(ReadStringMax(36/32)) *)
-| PKey.                        (* WriteKey / ReadKey: validated "namespace:value" string; atom = the key's String() *)
+| PKey                         (* WriteKey / ReadKey: validated "namespace:value" string; atom = the key's String() *)
+| PNbt.                        (* util.WriteBinaryTag / ReadBinaryTag for protocol >= 1.20.2: one NAMELESS NBT tag (type byte + payload);
+                                  the atom is the tag's wire form (chat components travel like this from 1.20.3 on) *)
 
 Definition lprim_eqb (a b : lprim) : bool :=
   match a, b with
@@ -44,6 +46,7 @@ Definition lprim_eqb (a b : lprim) : bool :=
   | PBytes17V, PBytes17V => true
   | PUUIDStr d, PUUIDStr d' => Bool.eqb d d'
   | PKey, PKey => true
+  | PNbt, PNbt => true
   | _, _ => false
   end.
 
@@ -175,6 +178,95 @@ Definition valid_key (k : bytes * bytes) : bool :=
   negb (beq_bytes (fst k) dots) && forallb ns_char (fst k) && forallb val_char (snd k).
 Definition key_string (k : bytes * bytes) : bytes := fst k ++ colon :: snd k.
 
+(* ----- NBT: delimiting one nameless tag (go-mc's nbt.Decoder with NetworkFormat, RawMessage target) -----
+   A stack machine instead of a recursive descent so that the recursion is on fuel only. *)
+Inductive nfr := NList (et : N) (n : N) | NComp.
+
+Definition drop_n (n : nat) (bs : bytes) : option bytes :=
+  if Nat.leb n (length bs) then Some (skipn n bs) else None.
+
+Definition be_i32 (bs : bytes) : option (Z * bytes) :=
+  if Nat.leb 4 (length bs) then Some (to_signed 32 (be_val (firstn 4 bs)), skipn 4 bs) else None.
+Definition be_u16 (bs : bytes) : option (N * bytes) :=
+  if Nat.leb 2 (length bs) then Some (be_val (firstn 2 bs), skipn 2 bs) else None.
+
+(* begin the payload of a tag of type t: scalars are skipped, containers pushed *)
+Definition nbt_skip (k : nat) (st : list nfr) (bs : bytes) : option (list nfr * bytes) :=
+  match drop_n k bs with Some r => Some (st, r) | None => None end.
+Definition nbt_arr (w : Z) (st : list nfr) (bs : bytes) : option (list nfr * bytes) :=
+  match be_i32 bs with
+  | Some (n, r) => if n <? 0 then None else nbt_skip (Z.to_nat (w * n)) st r
+  | None => None
+  end.
+Definition nbt_str (st : list nfr) (bs : bytes) : option (list nfr * bytes) :=
+  match be_u16 bs with
+  | Some (n, r) => nbt_skip (N.to_nat n) st r
+  | None => None
+  end.
+Definition nbt_list (st : list nfr) (bs : bytes) : option (list nfr * bytes) :=
+  match bs with
+  | et :: r => match be_i32 r with
+               | Some (n, r') => if n <=? 0 then Some (st, r')
+                                 else if (et =? 0)%N then None
+                                 else Some (NList et (Z.to_N n) :: st, r')
+               | None => None end
+  | [] => None
+  end.
+
+Definition start_val (t : N) (st : list nfr) (bs : bytes) : option (list nfr * bytes) :=
+  if (t =? 1)%N then nbt_skip 1 st bs
+  else if (t =? 2)%N then nbt_skip 2 st bs
+  else if (t =? 3)%N then nbt_skip 4 st bs
+  else if (t =? 4)%N then nbt_skip 8 st bs
+  else if (t =? 5)%N then nbt_skip 4 st bs
+  else if (t =? 6)%N then nbt_skip 8 st bs
+  else if (t =? 7)%N then nbt_arr 1 st bs
+  else if (t =? 8)%N then nbt_str st bs
+  else if (t =? 9)%N then nbt_list st bs
+  else if (t =? 10)%N then Some (NComp :: st, bs)
+  else if (t =? 11)%N then nbt_arr 4 st bs
+  else if (t =? 12)%N then nbt_arr 8 st bs
+  else None.
+
+Fixpoint nbt_run (fuel : nat) (st : list nfr) (bs : bytes) : option bytes :=
+  match fuel with
+  | O => None
+  | S f =>
+      match st with
+      | [] => Some bs
+      | NList et n :: st' =>
+          if (n =? 0)%N then nbt_run f st' bs
+          else match start_val et (NList et (n - 1)%N :: st') bs with
+               | Some (s2, r) => nbt_run f s2 r
+               | None => None
+               end
+      | NComp :: st' =>
+          match bs with
+          | [] => None
+          | t :: r =>
+              if (t =? 0)%N then nbt_run f st' r
+              else match nbt_str st' r with          (* the entry's name *)
+                   | Some (_, r2) => match start_val t (NComp :: st') r2 with
+                                     | Some (s2, r3) => nbt_run f s2 r3
+                                     | None => None
+                                     end
+                   | None => None
+                   end
+          end
+      end
+  end.
+
+(* the bytes left after one nameless tag; a lone TAG_End is a complete (empty) tag *)
+Definition nbt_rest (bs : bytes) : option bytes :=
+  match bs with
+  | [] => None
+  | t :: r => if (t =? 0)%N then Some r
+              else match start_val t [] r with
+                   | Some (st, r') => nbt_run (3 * length bs + 3) st r'
+                   | None => None
+                   end
+  end.
+
 (* ---------- the family ---------- *)
 Definition lp_enc (p : lprim) (a : atom) : res bytes :=
   match p, a with
@@ -194,6 +286,7 @@ Definition lp_enc (p : lprim) (a : atom) : res bytes :=
   | PKey, ABytes s =>
       let k := canon_key s in
       if valid_key k then Ok (enc_varint (lenZ (key_string k)) ++ key_string k) else Err EDomain
+  | PNbt, ABytes s => match nbt_rest s with Some [] => Ok s | _ => Err EDomain end
   | _, _ => Err EShape
   end.
 
@@ -234,6 +327,11 @@ Definition lp_dec (p : lprim) (bs : bytes) : res (atom * bytes) :=
       | Err e => Err e
       | Ok (s, r) => let k := canon_key s in if valid_key k then Ok (ABytes (key_string k), r) else Err EFormat
       end
+  | PNbt =>
+      match nbt_rest bs with
+      | Some r => Ok (ABytes (firstn (length bs - length r) bs), r)
+      | None => Err EFormat
+      end
   end.
 
 (* allocation units requested (bytes of make([]byte, n) plus the string conversion copy) *)
@@ -247,6 +345,7 @@ Definition lp_alloc (p : lprim) (bs : bytes) : N :=
   | PBytes17V => match van_dec_fshort bs with Ok (n, _) => if (forge_max <? n)%Z then 0 else Z.to_N n | Err _ => 0 end
   | PUUIDStr d => (2 * claimed_len (4 * (if d then 36 else 32))%Z bs + 16)%N
   | PKey => (4 * claimed_len (4 * default_max)%Z bs)%N
+  | PNbt => match nbt_rest bs with Some r => lenN bs - lenN r | None => lenN bs end
   | _ => 0
   end%N.
 
@@ -298,5 +397,6 @@ Definition lp_domb (p : lprim) (a : atom) : bool :=
   | PUUIDStr _, ABytes u => wf_bytesb u && Nat.eqb (length u) 16
   | PKey, ABytes s =>
       wf_bytesb s && valid_key (canon_key s) && beq_bytes (key_string (canon_key s)) s && (lenZ s <=? 4 * default_max)
+  | PNbt, ABytes s => wf_bytesb s && match nbt_rest s with Some [] => true | _ => false end
   | _, _ => false
   end.
